@@ -798,5 +798,5 @@ func c17Teardown() {
 }
 
 func init() {
-	register(&Prop{Name: "c17", Gen: c17Gen, Exec: c17Exec, Judge: c17Judge, Teardown: c17Teardown})
+	register(&Prop{Name: "c17", Stateless: true, Gen: c17Gen, Exec: c17Exec, Judge: c17Judge, Teardown: c17Teardown})
 }
